@@ -21,6 +21,7 @@ import z3
 
 from contracts import C13
 from hv import core, extract, framevc as fv, pyvc
+from hv import history
 from hv.driver import Bounded, Spec
 from hv.pyvc import to_z3
 
@@ -361,7 +362,7 @@ SPEC = Spec(
     prop=PROP, level="other",
     functions=[(CK, "CudaKernelAnalysis.get_frequent_cuda_kernel_sequences"), (CK, "CudaKernelAnalysis._generate_frequent_pattern_results"),
                (C13.TCS, "CallStackGraph._add_kernel_info_to_cpu_ops"), ("hta.common.trace_call_graph", "CallGraph.get_stack_of_node")],
-    units=units, bounded=[Bounded("sequences_vs_recomputation", bounded)],
+    units=units, bounded=[Bounded("sequences_vs_recomputation", bounded), Bounded("history_independence", history.stage(PROP, "sequences", "gen"))],
     trusted=["get_stack_of_node(index, skip_ancestors=True) = the node and all its descendants including device activities (bounded stage only)",
              "substring matching of the operator name is the code's definition of 'matching'", "dict accumulators modelled per key (defaultdict semantics)"],
     explanation="Proved (z3 from the AST): root selection (shallowest depth over all candidates, then the kernel-count filter), one iteration of the accumulation loop, the kernel "
